@@ -282,6 +282,8 @@ def gen_case(seed, run, tier):
     else:
         for m in ("true", "false", "none"):
             calls.append({"mode": m, "dup": False})
+            if rs.random() < 0.2:
+                calls[-1]["psym"] = rs.choice(["plain", "posint", "named"])
     if rf.random() < 0.35:
         for c in calls:
             if c["mode"] == "none":
@@ -371,6 +373,14 @@ def _mk_args(case, call):
     kw = {"underdetermined": MODES[call["mode"]]}
     if call.get("dup"):
         kw["allow_duplicates"] = True
+    if call.get("psym"):
+        import sympy
+
+        kw["parametric_symbols"] = {
+            "plain": lambda: sympy.numbered_symbols("p"),
+            "posint": lambda: sympy.numbered_symbols("q", start=3, integer=True, positive=True),
+            "named": lambda: iter(sympy.symbols("a0:40")),
+        }[call["psym"]]()
     if case["subs"] == "explicit":
         kw["substances"] = OrderedDict(
             (s["key"], Substance(s["key"], composition={int(z): v for z, v in s["comp"].items() if v}))
@@ -389,7 +399,7 @@ def do_call(case, call, faults):
 
     cbc.WORLD.reset({f["inv"]: f for f in faults})
     r, p, kw = _mk_args(case, call)
-    rec = {"mode": call["mode"], "dup": bool(call.get("dup")), "faults": [dict(f) for f in faults]}
+    rec = {"mode": call["mode"], "dup": bool(call.get("dup")), "faults": [dict(f) for f in faults], "psym": call.get("psym")}
     with warnings.catch_warnings():
         warnings.simplefilter("ignore")
         try:
@@ -684,6 +694,8 @@ def enumerate_faults(base_rec, enum, tier_pairs=0):
 
 def _hist_rec(rec):
     h = {k: rec[k] for k in ("mode", "dup", "faults", "outcome", "n_inv", "fired")}
+    if rec.get("psym"):
+        h["psym"] = rec["psym"]
     if "_res" in rec:
         rr, pp = rec["_res"] if isinstance(rec["_res"], tuple) and len(rec["_res"]) == 2 else ({}, {})
         try:
